@@ -737,6 +737,13 @@ def build_case_shared(rng, g, part, p_share=0.5, kinds=('$', '><'), render_opts=
             g.add_edge(a, clone, order=g.edges[a, b]['order'])
             done_edges.add(frozenset((a, b)))
             g.remove_edge(a, b)
+        # two shared atoms that are bonded to each other (the fusion bond of two rings described ring by ring): the bond is
+        # then written in BOTH fragments, between the originals and between their copies
+        for x in list(g[b]):
+            if part[x] == part[b] and origin[x] == x:
+                for xc in [n for n in g if origin.get(n) == x and n != x and part[n] == P]:
+                    if not g.has_edge(clone, xc) and rng.random() < 0.7:
+                        g.add_edge(clone, xc, **dict(g.edges[b, x]))
         # bonds of the shared atom to THIRD fragments may be written on either of its two copies
         for c in list(g[b]):
             if part[c] not in (P, part[b]) and origin[c] == c and rng.random() < 0.4:
@@ -829,6 +836,8 @@ def render_coarse_fragment(rng, g, nodes, desc, name_attr='name'):
     # attach descriptor texts
     flat = G._flat(ast)
     for (e, _, _, _), n in zip(flat, pre):
+        if g.nodes[n].get('annot'):
+            e['annot'] = g.nodes[n]['annot']         # a weight (or free key) written on the bead
         dl = desc.get(n, [])
         txt = ''.join(fmt_desc(k, l, o) for (k, l, o) in dl)
         if n == start and dl and rng.random() < 0.3:
